@@ -173,8 +173,13 @@ def main(argv):
             fn = upath.split('@')[0].split('::', 1)[1]
             parts = fn.split('::')
             if len(parts) == 3: fn = parts[0] + '::' + parts[2]
+            if '@' in upath:
+                # the copy of a function registered under a second instruction NAME is emitted under a mangled name (gen.handle_top_fn)
+                fn += '__as__' + re.sub(r'[^A-Za-z0-9]', '_', upath.split('@', 1)[1])
             r2 = engine.build(verify_only=['push::' + u['mod']], verify_fn=fn, extra_args=['--rlimit', '300'])
-            if 'tool_error' in r2 or r2['tool'] or not ((r2.get('verified') or 0) + (r2.get('errors') or 0)):
+            # the isolated run counts only if it really verified THIS function (non-zero resource count for it)
+            st = [v for k2, v in (r2.get('fstats') or {}).items() if k2.endswith('::' + fn.split('::')[-1])]
+            if 'tool_error' in r2 or r2['tool'] or not ((r2.get('verified') or 0) + (r2.get('errors') or 0)) or not any(v.get('rlimit') for v in st):
                 still += fs; continue
             again = set(x['oid'] for x in r2['fails'] if x['unit'] == upath)
             for f in fs:
